@@ -38,28 +38,42 @@ def isfinite(x):
 
 
 QWINDOW = [24]
+UNIVERSE = {}
+
+
+def _domains(f, types):
+    import inspect
+    import itertools
+    n = len(inspect.signature(f).parameters)
+    if types is None:
+        tl = ["Int"] * n
+    elif isinstance(types, str):
+        tl = [types]
+    else:
+        tl = list(types)
+    doms = []
+    for t in tl:
+        if t == "Int":
+            doms.append(range(-2, QWINDOW[0]))
+        elif t in UNIVERSE:
+            doms.append(sorted(UNIVERSE[t], key=repr))
+        else:
+            raise Skip()
+    return itertools.product(*doms)
 
 
 def forall(f, types=None):
-    import inspect
-    n = len(inspect.signature(f).parameters)
-    rng = range(-2, QWINDOW[0])
-    if n == 1:
-        return all(f(i) for i in rng)
-    if n == 2:
-        return all(f(i, j) for i in rng for j in rng)
-    raise Skip()
+    try:
+        return all(f(*xs) for xs in _domains(f, types))
+    except (IndexError, KeyError, TypeError):
+        raise Skip()
 
 
 def exists(f, types=None):
-    import inspect
-    n = len(inspect.signature(f).parameters)
-    rng = range(-2, QWINDOW[0])
-    if n == 1:
-        return any(f(i) for i in rng)
-    if n == 2:
-        return any(f(i, j) for i in rng for j in rng)
-    raise Skip()
+    try:
+        return any(f(*xs) for xs in _domains(f, types))
+    except (IndexError, KeyError, TypeError):
+        raise Skip()
 
 
 def typed(v, t):
@@ -67,7 +81,7 @@ def typed(v, t):
 
 
 NATIVES = dict(requires=requires, implies=implies, iff=iff, isfinite=isfinite, forall=forall, exists=exists,
-               typed=typed, math=math)
+               typed=typed, math=math, Skip=Skip)
 
 
 class Builder(object):
@@ -96,8 +110,13 @@ class Builder(object):
             if "abs" in v:
                 fac = getattr(self.mod, "NATIVE_ABS", {}).get(v.get("sort"))
                 if fac is not None:
-                    return fac(v["abs"])
-                return v["abs"]
+                    val = fac(v["abs"])
+                elif "rank" in v:
+                    val = v["rank"]
+                else:
+                    val = v["abs"]
+                UNIVERSE.setdefault(v.get("sort"), set()).add(val)
+                return val
             if "term" in v:
                 from pyvc import native_term
                 return native_term.build(v["term"])
@@ -152,11 +171,19 @@ def main():
     qual = req["qual"]
     verdict = dict(confirmed=None, text="")
     try:
+        if py.get("recipe") is not None:
+            from pyvc import native_fn
+            vals = mod.native_build(qual, py["recipe"])
+            fs = native_fn.find_spec(mod, qual)
+            ok, text = native_fn.evaluate_contract(mod, fs, native_fn.resolve(fs), vals)
+            print(json.dumps(dict(confirmed=(None if ok is None else (not ok)),
+                                  text="%s on recipe %s: %s" % (qual, json.dumps(py["recipe"])[:300], text))))
+            return
         if args is None:
             raise Skip()
         b = Builder(py.get("heap"), mod)
         vals = dict((n, b.build(v)) for n, v in args.items())
-        sizes = [len(x) for x in vals.values() if hasattr(x, "__len__")]
+        sizes = [len(x) for x in vals.values() if isinstance(x, (list, dict, set, tuple, str))]
         for o in b.objs.values():
             for a in getattr(o, "__dict__", {}).values():
                 if hasattr(a, "__len__"):
@@ -194,9 +221,13 @@ def _short(vals):
     out = {}
     for k, v in vals.items():
         r = repr(v)
+        if hasattr(v, "__dict__") and " object at 0x" in r:
+            r = "%s%r" % (type(v).__name__, dict((a, b) for a, b in vars(v).items()))
         out[k] = r if len(r) < 200 else r[:200] + "..."
     return out
 
 
 if __name__ == "__main__":
-    main()
+    # run through the imported module so that Skip/UNIVERSE are the same objects native_fn sees
+    from pyvc import native as _n
+    _n.main()
